@@ -70,6 +70,9 @@ impl Map {
 
     fn from_str(s: &str) -> Self {
         s.lines()
+            // `lines` only strips a carriage return that is followed by a line feed, which the
+            // last line of a CRLF file need not be
+            .map(|line| line.strip_suffix('\r').unwrap_or(line))
             .map(|line| match line.split_once('\t') {
                 Some((sample, population)) => (sample, Some(population)),
                 None => (line, None),
